@@ -2011,6 +2011,11 @@ class CParser:
     # BNF: constant : INT_CONST | FLOAT_CONST | CHAR_CONST
     def _parse_constant(self) -> c_ast.Node:
         tok = self._advance()
+        if tok.type == "INT_CONST_CHAR":
+            # A multi-character constant ('ab') has type int; its characters
+            # are not integer suffixes.
+            return c_ast.Constant("int", tok.value, self._tok_coord(tok))
+
         if tok.type in _INT_CONST:
             u_count = 0
             l_count = 0
